@@ -1048,7 +1048,7 @@ func run() {
 	g := newRng()
 	r := &runner{g: g, fs: newFS()}
 	defer r.fs.close()
-	nb, nmut, nbig := 10, 50, 2
+	nb, nmut, nbig := 6, 40, 1
 	if thorough() {
 		nb, nmut, nbig = 110, 200, 8
 	}
@@ -1056,7 +1056,7 @@ func run() {
 	// base 0: the empty buffer, carrier of random garbage
 	emit(baseRec{K: "base", I: bi, Bytes: []int{}, Valid: false, Desc: "empty"})
 	r.emitCase(bi, "empty", nil, -1, nil, true)
-	ngarb := 100
+	ngarb := 60
 	if thorough() {
 		ngarb = 1500
 	}
